@@ -75,6 +75,7 @@ type Prov struct {
 	Results  []TypeID
 	Err      bool `json:",omitempty"`
 	Variadic bool `json:",omitempty"` // last parameter is ...Elem(of slice type in Params)
+	Method   bool `json:",omitempty"` // Form ext: referenced as a method value of a package-level variable (pkg.Factory.Name)
 }
 
 // Elem is one argument of Inject / Set.
